@@ -10,6 +10,9 @@ def handle (args : List String) : Option String :=
   | "serve" :: rest => do
     let o ← handleServe rest
     pure s!"{encWritten o.written} {encStop o.result}"
+  | "servew" :: rest => do
+    let o ← handleServeW rest
+    pure s!"{o.invs.length} {encWritten o.written} {encStop o.result}"
   | "servep" :: rest => do
     let o ← handleServeP rest
     let dl := if o.delivered.isEmpty then "-" else ",".intercalate (o.delivered.map XmppModel.Xml.hexF)
